@@ -278,42 +278,50 @@ theorem sapplyOne_frame (fs : FS) (i0 : Nat) (x x' : Vals) (n : Nat) (p : Payloa
 
 /-! ### setters -/
 
-/-- a setter body, when one is generated, returns exactly the entry a full diff would contain for that field -/
-def SetterOK (F : FieldSem) : Prop := ∀ old v ret, F.setter old v = some ret → ret = F.diff old v
+/-- a setter body, when one is generated, returns exactly the entry a full diff would contain for that field, and it
+returns BEFORE assigning only when it returns nothing because the old value is `==` to the given one -/
+def SetterOK (F : FieldSem) : Prop :=
+  (∀ old v ret, F.setter old v = some ret → ret = F.diff old v) ∧
+  (∀ old v, F.setterKeeps old v = true → veq old v = true ∧ (∀ ret, F.setter old v = some ret → ret = none))
 
 theorem setter_ok_kind : ∀ k : Kind, SetterOK (semKind k)
   | .plain => by
-    intro old v ret h
-    simp only [semKind, plainField, Option.some.injEq] at h ⊢
-    subst h
-    by_cases e : old = v <;> simp [e]
+    refine ⟨fun old v ret h => ?_, fun old v hk => ?_⟩
+    · simp only [semKind, plainField, Option.some.injEq] at h ⊢
+      exact h.symm
+    · simp only [semKind, plainField] at hk ⊢
+      exact ⟨hk, fun ret h => by simp only [hk, if_true, Option.some.injEq] at h; exact h.symm⟩
   | .recurse t => by
-    intro old v ret h
-    simp only [semKind, recurseField, Option.some.injEq] at h ⊢
-    subst h
-    by_cases e : old = v <;> simp [e]
+    refine ⟨fun old v ret h => ?_, fun old v hk => ?_⟩
+    · simp only [semKind, recurseField, Option.some.injEq] at h ⊢
+      exact h.symm
+    · simp only [semKind, recurseField] at hk ⊢
+      exact ⟨hk, fun ret h => by simp only [hk, if_true, Option.some.injEq] at h; exact h.symm⟩
   | .recurseOpt t => by
-    intro old v ret h
-    simp only [semKind, recurseOptField, Option.some.injEq] at h ⊢
-    subst h
-    by_cases e : old = v
-    · subst e
-      cases old <;> simp
-    · simp only [e, if_false]
+    refine ⟨fun old v ret h => ?_, fun old v hk => ?_⟩
+    · simp only [semKind, recurseOptField, Option.some.injEq] at h ⊢
+      subst h
+      cases hv : veq old v with
+      | false => simp
+      | true =>
+        simp only [if_true]
+        cases old <;> cases v <;> simp_all [veq]
+    · simp only [semKind, recurseOptField] at hk ⊢
+      exact ⟨hk, fun ret h => by simp only [hk, if_true, Option.some.injEq] at h; exact h.symm⟩
   | .ordered => by
-    intro old v ret h
+    refine ⟨fun old v ret h => ?_, fun old v hk => by simp [semKind, orderedField] at hk⟩
     simp only [semKind, orderedField, Option.some.injEq] at h ⊢
     exact h.symm
   | .unordArr => by
-    intro old v ret h
+    refine ⟨fun old v ret h => ?_, fun old v hk => by simp [semKind, unordField] at hk⟩
     simp only [semKind, unordField, Option.some.injEq] at h ⊢
     exact h.symm
   | .map ko => by
-    intro old v ret h
+    refine ⟨fun old v ret h => ?_, fun old v hk => by simp [semKind, mapField] at hk⟩
     simp only [semKind, mapField, Option.some.injEq] at h ⊢
     exact h.symm
   | .recMap ko t => by
-    intro old v ret h
+    refine ⟨fun old v ret h => ?_, fun old v hk => by simp [semKind, recMapField] at hk⟩
     simp only [semKind, recMapField] at h ⊢
     cases ko with
     | true => simp only [if_true, Option.some.injEq] at h; exact h.symm
